@@ -88,20 +88,22 @@ structure XchgCorePost (w : World) (fl : List Nat) (e : Ent) (add rem : List Com
   tablesLen : w'.tables.length ≤ w.tables.length + 1
   entitiesLen : w'.entities.length = w.entities.length
 
-/-- **C01 + C04, `World.exchange`**: for a live entity `e` and arguments satisfying `XchgPre`, in a
-    `TInv` world, unlocked, no observers: the call never fails, returns the old and the new mask,
-    and guarantees `XchgCorePost`. -/
+/-- **C01 + C04, `World.exchange`**: for a live entity `e` (ID inside the pool slice) and arguments
+    satisfying `XchgPre` whose targets have IDs inside the pool slice, in a `TInv` world, unlocked,
+    no observers: the call never fails, returns the old and the new mask, and guarantees
+    `XchgCorePost`. -/
 theorem exchangeCore_rel_spec (run : ProbeRunner) {w : World} {fl : List Nat} (h : TInv w fl)
     (hl : w.isLocked = false) (hno : ∀ (evt : Nat), w.obs.hasObservers evt = false) {e : Ent}
-    (h2 : 2 ≤ e.id) (hnf : e.id ∉ fl) (ha : w.alive e = true) {add rem : List Comp}
-    {rels : List RelID} (hp : XchgPre w e add rem rels)
+    (h2 : 2 ≤ e.id) (hnf : e.id ∉ fl) (ha : w.alive e = true) (hsl : e.id < w.pool.ents.length)
+    {add rem : List Comp} {rels : List RelID} (hp : XchgPre w e add rem rels)
+    (htin : ∀ (r : RelID), r ∈ rels → r.target.id < w.pool.ents.length)
     (hfew : w.tables.length < maxU32) (hrows : w.entities.length + 1 < 2 ^ 32) :
     ∃ (w' : World),
       exchangeCore run e add rem rels w =
         .ok (w.maskOf e, add.foldl Mask.set (rem.foldl Mask.clear (w.maskOf e))) w' ∧
       XchgCorePost w fl e add rem rels w' := by
   obtain ⟨hne, hrnd, hpres, hand, hreg, hnew, hrelnd, hin, hrc, hall, hval⟩ := hp
-  obtain ⟨oldT, row, he, htm, _⟩ := h.link.live_entry h2 hnf ha
+  obtain ⟨oldT, row, he, htm, _⟩ := h.link.live_entry h2 hnf ha hsl
   have hix := index_of_get he
   have hI := h.link.idx
   obtain ⟨hT, hrow, hid⟩ := hI.indexed he htm
@@ -294,7 +296,7 @@ theorem exchangeCore_rel_spec (run : ProbeRunner) {w : World} {fl : List Nat} (h
       intro r hr hz
       rcases hval r hr with k | k
       · rw [k] at hz; cases hz
-      · have := h.link.alive_lt k
+      · have := h.link.lt_of_in (htin r hr)
         rw [hu.isTarget, h.link.tgtLen]; exact this)
   have hno1 : ∀ (evt : Nat), w1.obs.hasObservers evt = false := by
     intro evt; rw [hu.obs]; exact hno evt
